@@ -212,18 +212,30 @@ pub fn dump(files: &[(String, String)], externs: &[ExternDef], ptrw: usize, work
     };
     let src = work.join(format!("layout_{ptrw}.rs"));
     std::fs::write(&src, &text).unwrap();
-    let mut c = Command::new("rustc");
-    c.env("RUSTUP_TOOLCHAIN", "nightly")
-        .arg("--edition=2021")
-        .arg("--target")
-        .arg(target_for(ptrw))
-        .arg("--crate-type=lib")
-        .arg("--emit=metadata")
-        .arg("--error-format=json")
-        .arg("--out-dir")
-        .arg(work)
-        .arg(&src);
-    let r: ToolResult = run_tool(&mut c, Duration::from_secs(300));
+    let make = || {
+        let mut c = Command::new("rustc");
+        c.env("RUSTUP_TOOLCHAIN", "nightly")
+            .arg("--edition=2021")
+            .arg("--target")
+            .arg(target_for(ptrw))
+            .arg("--crate-type=lib")
+            .arg("--emit=metadata")
+            .arg("--error-format=json")
+            .arg("--out-dir")
+            .arg(work)
+            .arg(&src);
+        c
+    };
+    // the dump always "fails" (the layouts are error diagnostics); repeat only when the
+    // compiler produced no JSON diagnostics at all
+    let mut r: ToolResult = run_tool(&mut make(), Duration::from_secs(300));
+    for attempt in 0..3u64 {
+        if r.timed_out || r.stderr.contains("\"message\"") || lines.is_empty() {
+            break;
+        }
+        std::thread::sleep(Duration::from_millis(500 * (attempt + 1)));
+        r = run_tool(&mut make(), Duration::from_secs(300));
+    }
     if r.timed_out {
         res.tool_failure = Some("rustc timed out".into());
         return res;
